@@ -378,3 +378,38 @@ Example C04_emit_assign_example :
                           [(Some [[Some false]], ESig 0 (Sh 4 false)); (None, ESlice (ESig 1 (Sh 8 false)) 0 2)]) 1 3 in
   tclass narrow = true /\ wa_run (fun _ => true) 1 8 (emit_assign selnets narrow 0 [NC true; NC true] ATrue) 0 = 2.
 Proof. vm_compute. repeat split; reflexivity. Qed.
+
+(* ================================================================== translated source
+   Gen/IrGen.v is regenerated on every run from the text of amaranth/hdl/_ir.py (translator/unit_ir.py):
+   NetlistEmitter.extend, emit_match and emit_assign, statement by statement (loops as folds over the variables the
+   body rebinds, `continue` as the unchanged loop state, the appended Assignments collected in order).  The theorems
+   below (proofs in Proofs/GenEqIr.v) say that the regenerated functions are the hand-written model the theorems above
+   are about, on all inputs; a change of the source is Unsupported or breaks one of them. *)
+From V.Proofs Require Import GenEqIr.
+From V.Gen Require IrGen.
+
+(* NetlistEmitter.extend: the while loop appends width - len(value) nets *)
+Theorem C04_translated_extend value signed width : IrGen.extend value signed width = extend value signed width.
+Proof. exact (gen_extend_eq value signed width). Qed.
+Print Assumptions C04_translated_extend.
+
+(* NetlistEmitter.emit_match: the condition nets are the outputs 0 .. len(patterns)-1 of one Match cell *)
+Theorem C04_translated_emit_match en value patterns :
+  IrGen.emit_match en value patterns = map (AMatch en value patterns) (seq 0 (length patterns)).
+Proof. exact (gen_emit_match_eq en value patterns). Qed.
+Print Assumptions C04_translated_emit_match.
+
+(* NetlistEmitter.emit_assign, all target kinds.  The generated function recurses on fuel (Python's recursion is
+   unbounded): any fuel above the nesting depth of the target gives the model's list of Assignments *)
+Theorem C04_translated_emit_assign selnets lhs fuel start rhs cond : (edepth lhs < fuel)%nat ->
+  IrGen.emit_assign fuel selnets lhs start rhs cond = emit_assign selnets lhs start rhs cond.
+Proof. exact (fun H => gen_emit_assign_eq_fuel selnets lhs fuel H start rhs cond). Qed.
+Print Assumptions C04_translated_emit_assign.
+Example C04_translated_emit_assign_example :
+  let lhs := ECat [ESwitch (ESig 2 (Sh 1 false))
+                     [(Some [[Some true]], ESlice (ESig 0 (Sh 4 false)) 1 3); (None, EOp1 OU (ESig 1 (Sh 2 false)))];
+                   EPart (ESig 3 (Sh 8 false)) (ESig 4 (Sh 2 false)) 2 3] in
+  let selnets := fun e => match e with ESig 2%nat _ => [NV 0%nat] | ESig 4%nat _ => [NV 1%nat; NV 2%nat] | _ => [] end in
+  (edepth lhs < 4)%nat /\
+  length (IrGen.emit_assign 4 selnets lhs 1 [NC true; NC false; NC true] ATrue) = 5%nat.
+Proof. vm_compute. split; [repeat constructor|reflexivity]. Qed.
